@@ -118,6 +118,26 @@ pub fn vslerp(bits: u32) -> BoxedStrategy<Vec<u64>> {
 
 /// rotate_towards case: a[N] b[N] max_angle
 pub fn rotate(n: usize, bits: u32) -> BoxedStrategy<Vec<u64>> {
+    prop_oneof![9 => rotate_main(n, bits), 1 => rotate_colinear(n, bits)].boxed()
+}
+
+/// exactly colinear operands: the target is the start times +-2^k (same direction or opposite), steps of either sign
+fn rotate_colinear(n: usize, bits: u32) -> BoxedStrategy<Vec<u64>> {
+    (unit(n), lengths(), -3i32..=3, any::<bool>(), prop_oneof![3 => -4.0f64..4.0, 1 => Just(0.0f64), 1 => (-3.0f64..1.0).prop_map(|e| -(10f64.powf(e)))])
+        .prop_map(move |(a, (la, _), k, opposite, maxa)| {
+            // round the start to the lane type first, then scale by a power of two: exactly colinear in that type
+            let ar: Vec<f64> = a.iter().map(|x| from_word(bits, to_word(bits, x * la))).collect();
+            let f = ldexp(1.0, k) * if opposite { -1.0 } else { 1.0 };
+            let br: Vec<f64> = ar.iter().map(|x| x * f).collect();
+            let mut w = words(bits, &ar);
+            w.extend(words(bits, &br));
+            w.push(to_word(bits, maxa));
+            w
+        })
+        .boxed()
+}
+
+fn rotate_main(n: usize, bits: u32) -> BoxedStrategy<Vec<u64>> {
     (dir_pair(n, dmax(bits), 3e-7), lengths(), step(true))
         .prop_map(move |((a, b), (la, lb), (st, rel))| {
             let th = vdot(&a, &b).clamp(-1.0, 1.0).acos();
